@@ -214,6 +214,12 @@ func (c *caComp) Run(args []string) string {
 		c.notis = map[string]*pb.Notification{}
 		return "ok"
 	case "add":
+		if t := decStr(args[1]); c.c.HasTarget(t) {
+			// Add of a name the cache already has replaces the target silently (no delete is announced): a history the
+			// C03 simulation excludes (OkRun: adds of fresh names), so the replayed view forgets the target here too
+			c.viewDelete([]string{t, "*"})
+			c.viewDelete([]string{t})
+		}
 		c.c.Add(decStr(args[1]))
 		return "ok"
 	case "remove":
@@ -803,6 +809,12 @@ func (g *caGen) step() {
 			g.emit("meta %s", encStr(t))
 			g.emit("query %s /meta/serverName", encStr(t))
 		}
+	case x < 95 && genProfile == "c14" && r.Intn(3) == 0 && t != "*" && t != "":
+		// (c14) the target is added AGAIN without a Remove (the collector does so when a target is re-configured): a
+		// fresh target replaces the old one for every call alike — the next lookups, updates, Reset and queries all
+		// address the new one (seeded change c14_seed11: a remembered lookup surviving the re-Add)
+		g.emit("add %s", encStr(t))
+		g.emit("query %s .", encStr(t))
 	case x < 95:
 		if t == "*" || t == "" {
 			t = "zz" // a whole-target delete for the wildcard/empty name would address every target
